@@ -12,6 +12,7 @@ import (
 // deleted whose rows are still there (the server was killed while a session still showed them) and an orphan cache file.
 func (w *world) startupScenario() error {
 	res := w.ctx.Res
+	var snapB *dbSnap
 	prepare := func(pfx string) (string, error) {
 		d, err := prepAB(w, pfx, 3, true)
 		if err != nil {
@@ -32,6 +33,10 @@ func (w *world) startupScenario() error {
 		if err != nil {
 			return "", err
 		}
+		w.quiesce()
+		if snapB, err = w.snap(); err != nil {
+			return "", err
+		}
 		// the process dies while the session is still there: the marked rows and their files stay
 		w.p.kill()
 		// an orphan cache file (e.g. written by an APPEND whose transaction never committed)
@@ -48,6 +53,7 @@ func (w *world) startupScenario() error {
 	if err != nil {
 		return err
 	}
+	filesB := storeFiles(w.dir)
 	p, err := startChild(w.dir, fmt.Sprintf("%d:fail", 1<<30), true)
 	w.p = p
 	if err != nil {
@@ -58,7 +64,12 @@ func (w *world) startupScenario() error {
 	if err != nil {
 		return err
 	}
-	w.em.emitStartup(tr.Events)
+	sref := &refRun{pfx: "SR_", events: tr.Events, snapBefore: snapB, filesBefore: filesB}
+	if sref.snapAfter, err = w.snap(); err != nil {
+		return err
+	}
+	sref.filesAfter = storeFiles(w.dir)
+	w.em.emitStartup(sref)
 	after, bad, err := viewOf(w.p, "SR_")
 	if err != nil {
 		return err
